@@ -93,6 +93,9 @@ class ProvXMLSerializer(Serializer):
         for namespace in bundle.namespaces:
             if namespace not in nsmap:
                 nsmap[namespace.prefix] = namespace.uri
+        if bundle._namespaces._default:
+            # the bundle's own default namespace applies to its content
+            nsmap[None] = bundle._namespaces._default.uri
 
         for key, value in DEFAULT_NAMESPACES.items():
             uri = value.uri
